@@ -264,4 +264,28 @@ func init() {
 		Old:    "\tfor _, antecedentName := range antecedents {\n\t\terr := declationOfIndependenceOne(antecedentName, succedentType)",
 		New:    "\tfor i, antecedentName := range antecedents {\n\t\tif i > 0 && antecedentName.Type.Modality() == antecedents[i-1].Type.Modality() {\n\t\t\tcontinue\n\t\t}\n\t\terr := declationOfIndependenceOne(antecedentName, succedentType)",
 		Expect: "checks-every-name"})
+	addFixture(Fixture{Name: "wellformedness-memo-by-print", Rule: "R-CHECK-ALL", File: "types/types_sanity_checks.go",
+		Old:    "\tfor _, j := range types {\n\t\terr := CheckTypeWellFormedness(j, labelledTypesEnv)",
+		New:    "\tchecked := make(map[string]bool)\n\tfor _, j := range types {\n\t\tif checked[j.String()] {\n\t\t\tcontinue\n\t\t}\n\t\tchecked[j.String()] = true\n\t\terr := CheckTypeWellFormedness(j, labelledTypesEnv)",
+		Expect: "types.SanityChecksType | every-element:CheckTypeWellFormedness"})
+	addFixture(Fixture{Name: "decision-on-modeless-print", Rule: "R-DIAG-STRINGS", File: "types/types_sanity_checks.go",
+		Old:    "\tfor _, j := range types {\n\t\terr := CheckTypeWellFormedness(j, labelledTypesEnv)",
+		New:    "\tchecked := make(map[string]bool)\n\tfor _, j := range types {\n\t\tif checked[j.String()] {\n\t\t\tcontinue\n\t\t}\n\t\tchecked[j.String()] = true\n\t\terr := CheckTypeWellFormedness(j, labelledTypesEnv)",
+		Expect: "types.SanityChecksType | String-result-in-decision"})
+	addFixture(Fixture{Name: "double-unread", Rule: "R-UNREAD-ONCE", File: "parser/scanner.go",
+		Old:    "\t\t\t// is just 1\n\t\t\ts.unread()\n",
+		New:    "\t\t\t// is just 1\n\t\t\ts.unread()\n\t\t\ts.unread()\n",
+		Expect: "scanSpecialSymbol | pushback-once"})
+	addFixture(Fixture{Name: "unguarded-last-line", Rule: "R-INDEX-GUARD", File: "parser/lexer.go",
+		Old:    "\tl.Errors <- &ParseError{Err: err, Pos: l.scanner.pos}",
+		New:    "\tp := l.scanner.pos\n\tp.Char = p.Lines[len(p.Lines)-1]\n\tl.Errors <- &ParseError{Err: err, Pos: p}",
+		Expect: "(*parser.lexer).Error | index"})
+	addFixture(Fixture{Name: "name-list-truncated", Rule: "R-PRINT-GRAMMAR", File: "process/name.go",
+		Old:    "\tfor i, n := range names {\n\t\tbuf.WriteString(n.String())",
+		New:    "\tfor i, n := range names {\n\t\tif i == 8 {\n\t\t\tbreak\n\t\t}\n\t\tbuf.WriteString(n.String())",
+		Expect: "(*process.CallForm).String | print-production"})
+	addFixture(Fixture{Name: "first-provider-unguarded", Rule: "R-INDEX-GUARD-TC", File: "process/typechecker.go",
+		Old:    "\t\tglobalEnv.logf(LOGRULE, \"Typechecking process %s\\n\", processes[i].OutlineString())\n",
+		New:    "\t\tglobalEnv.logf(LOGRULE, \"Typechecking process %s (%s)\\n\", processes[i].OutlineString(), processes[i].Providers[0].Ident)\n",
+		Expect: "process.typecheckProcesses | index"})
 }
